@@ -2,6 +2,8 @@ import FsicModel.Generated
 import Proofs.Lemmas.Fortran
 import Proofs.Lemmas.FortranKinds
 import Proofs.Lemmas.FortranLoop
+import Proofs.Lemmas.FortranWrapper
+import Proofs.Lemmas.FortranEval
 /-
 C07 — The Fortran back-end computes what the Python back-end computes.      (PARTIAL — see the end of this comment)
 
@@ -210,6 +212,29 @@ example : kindSafe exact4Std (.bin .div (.int 1) (.int 2) : Expr String) = false
 example : kindSafe exact4Std (.dec 1 1 : Expr String) = false := by decide
 example : exact4Std 375 3 = true ∧ exact4Std 1 1 = false ∧ exact4Std 314159 5 = false := by decide
 
+/-! ## One whole evaluation pass -/
+
+/-- **A whole `evaluate` pass agrees.**  For a numbered program whose equations are kind-safe and whose references
+    stay inside the span at period `t` (any spelling, `-n ≤ t < n`), the compiled `{equations}` block run at column
+    `index = t + 1` (after the template's normalisation) leaves exactly the storage the generated Python
+    `_evaluate(t)` leaves, and Python raises nothing — for every interpretation of the real operators. -/
+theorem evaluate_agree {F4 F8 : Type} (T : Tower F4 F8) (exact4 : Nat → Nat → Bool) (hc : Coherent T exact4)
+    (prog : Prog) (s : Mat F8) (t : Int) (ht : -(s.ncols : Int) ≤ t) (ht' : t < s.ncols)
+    (hok : ∀ re ∈ prog, EqOk exact4 s.ncols (indexOf s.ncols (t + 1)) re) :
+    pBody T.o8 prog s t = (fBody T prog s (indexOf s.ncols (t + 1)), false) :=
+  pBody_eq_fBody T exact4 hc s.ncols t ht ht' prog s rfl hok
+
+/-- Two equations with a lag and a lead, evaluated at `t = -2` (column 2 of 3) in the toy interpretation. -/
+def exProg : Prog :=
+  [(1, .bin .add (.bin .mul (.dec 5 1) (.var 1 (-1))) (.var 2 1)), (2, .bin .sub (.var 1 0) (.bin .mul (.int 2) (.var 2 0)))]
+
+def exMat : Mat Int := ⟨2, 3, [1000, 2000, 3000, 4000, 5000, 6000]⟩
+
+example : ∀ re ∈ exProg, EqOk toyExact exMat.ncols (indexOf exMat.ncols (-2 + 1)) re := by
+  decide
+example : fBody toyT exProg exMat (indexOf 3 (-2 + 1)) = ⟨2, 3, [1000, 2000, 6500, -1500, 5000, 6000]⟩ := by decide
+example : pBody toy8 exProg exMat (-2) = (⟨2, 3, [1000, 2000, 6500, -1500, 5000, 6000]⟩, false) := by decide
+
 /-! ## The `solve_t` loop -/
 
 section Loop
@@ -228,7 +253,98 @@ theorem fortran_loop_eq_python_loop (W : Wrapped σ V) (c : Cfg) (o : Opts) (t :
       = some (floop W.toEngine c index fuel k u cur code) :=
   floop_eq_loop W c o t index Inv R hmin fuel k u cur code hk hu hcur
 
+/-- **The whole `FortranEngine.solve_t` is `BaseModel.solve_t`, under explicit guards** (the `_partial` statement;
+    the unguarded one is false — see the three witnesses below).  Guards: `-n ≤ t < n`; the period has enough
+    lags and leads; a documented `errors` string; `max_iter ≥ 1`; the finite regime `R` (which contains
+    `aligned`: the rows the compiled loop reads are the variables Python checks); copying a column twice is copying
+    it once.  Then the world afterwards (values, status and iterations series) and the result (True / False /
+    exception class) coincide, for every option set otherwise. -/
+theorem fortran_solveT_eq_python_partial (W : Wrapped σ V) (o : Opts) (t : Int) (w : World σ) (Inv : σ → Prop)
+    (ht : -(W.ncols : Int) ≤ t) (ht' : t < W.ncols)
+    (hfeas : (W.lags : Int) < normT W.ncols t + 1 ∧ normT W.ncols t + 1 ≤ (W.ncols : Int) - W.leads)
+    (herr : o.errors ≠ .invalid) (hmax : 1 ≤ o.maxIter)
+    (R : FiniteRegime W t (normT W.ncols t + 1).toNat Inv)
+    (hcopy : ∀ u d s, W.copyEndo (W.copyEndo u d s) d s = W.copyEndo u d s)
+    (hseed : Inv (seed (toInterp W) o t w.user)) :
+    wSolveT W o t w
+      = ((Fsic.solveT (toInterp W) o W.ncols t w).1, ofResult (Fsic.solveT (toInterp W) o W.ncols t w).2) :=
+  wSolveT_eq_solveT W o t w Inv ht ht' hfeas herr hmax R hcopy hseed
+
 end Loop
+
+/-! ### The unguarded statement is false of the current code: three witnesses
+
+A toy model over three periods whose state is a pair (Y, C): a pass sets `Y := 1` and moves `C` one step towards 3;
+two check vectors are close when equal; everything is finite.  `shift = true` makes the compiled loop read the rows the
+wrapper really passes (0-based numbers read 1-based: a constant cell and `Y`, never `C`). -/
+
+def toyW (lags : Nat) (shift : Bool) : Wrapped (Nat × Nat) (Nat × Nat) where
+  ncols := 3
+  lags := lags
+  leads := 0
+  check u _ := if shift then (0, u.1) else u
+  allFinite _ := true
+  close a b := a == b
+  endoFinite _ _ := true
+  zeroEndo u _ := u
+  copyEndo u _ _ := u
+  body u _ := (1, min (u.2 + 1) 3)
+  pyCheck u _ := u
+
+def toyWorld : World (Nat × Nat) := ⟨(0, 0), [.unsolved, .unsolved, .unsolved], [-1, -1, -1]⟩
+
+/-- The full statement: the wrapper's `solve_t` and the Python `solve_t` agree on every call. -/
+def FullSolveTAgree {σ V : Type} [DecidableEq σ] (W : Wrapped σ V) (o : Opts) (t : Int) (w : World σ) : Prop :=
+  wSolveT W o t w = ((Fsic.solveT (toInterp W) o W.ncols t w).1, ofResult (Fsic.solveT (toInterp W) o W.ncols t w).2)
+
+instance {σ V : Type} [DecidableEq σ] (W : Wrapped σ V) (o : Opts) (t : Int) (w : World σ) :
+    Decidable (FullSolveTAgree W o t w) := by unfold FullSolveTAgree; infer_instance
+
+/-- With the guards it holds on the toy model (an instance of the partial theorem): 4 passes, status '.'. -/
+example : FullSolveTAgree (toyW 0 false) {} 1 toyWorld ∧
+    wSolveT (toyW 0 false) {} 1 toyWorld = (⟨(1, 3), [.unsolved, .solved, .unsolved], [-1, 4, -1]⟩, .ret true) := by
+  decide
+
+/-- Convergence rows passed 0-based: the compiled loop stops at pass 2 (it never looks at `C`), Python at pass 4. -/
+theorem fortran_solveT_false_at_shifted_check : ¬ FullSolveTAgree (toyW 0 true) {} 1 toyWorld := by decide
+
+example : (wSolveT (toyW 0 true) {} 1 toyWorld).1.iters = [-1, 2, -1] ∧
+    (Fsic.solveT (toInterp (toyW 0 true)) {} 3 1 toyWorld).1.iters = [-1, 4, -1] := by decide
+
+/-- `max_iter = 0`: the template leaves `error_code = -1`, the wrapper raises FortranEngineError and stamps nothing;
+    Python records 'F', 0 iterations and returns False. -/
+theorem fortran_solveT_false_at_max_iter_zero :
+    ¬ FullSolveTAgree (toyW 0 false) { maxIter := 0, failRaise := false } 1 toyWorld := by decide
+
+example : wSolveT (toyW 0 false) { maxIter := 0, failRaise := false } 1 toyWorld = (toyWorld, .fortranEngineError) ∧
+    Fsic.solveT (toInterp (toyW 0 false)) { maxIter := 0, failRaise := false } 3 1 toyWorld
+      = (⟨(0, 0), [.unsolved, .failed, .unsolved], [-1, 0, -1]⟩, .ret false) := by decide
+
+/-- A period without enough lags (`lags = 1`, `t = 0`): the template returns code 13, which the wrapper's `solve_t`
+    does not dispatch on — FortranEngineError. -/
+theorem fortran_solveT_false_at_infeasible_period : ¬ FullSolveTAgree (toyW 1 false) {} 0 toyWorld := by decide
+
+example : wSolveT (toyW 1 false) {} 0 toyWorld = (toyWorld, .fortranEngineError) := by decide
+
+/-- What the compiled loop reads for the rows the wrapper passes: `conv` holds `names.index(x)` (0-based); the
+    template reads those numbers as 1-based rows, Python reads the variables themselves (row `r + 1`).  So the loop
+    checks, for every variable, the one stored one position earlier. -/
+theorem fortran_check_rows_shifted {F4 F8 : Type} (T : Tower F4 F8) (S : Spec F8) (rows : List Nat)
+    (u : Mat F8) (index : Nat) :
+    (specWrapped T { S with conv := rows.map (· + 1) }).check u index
+      = (specWrapped T { S with conv := rows }).pyCheck u index := by
+  simp [specWrapped, List.map_map, Function.comp_def]
+
+/-- …and row number 0 is the last row of the previous column (the cell before the column in memory). -/
+theorem fortran_row_zero_alias {F : Type} (s : Mat F) (g : F) (c : Nat) :
+    s.fget g 0 ((c : Int) + 1) = s.fget g (s.nrows : Int) (c : Int) := by
+  have : offsetOf s.nrows 0 ((c : Int) + 1) = offsetOf s.nrows (s.nrows : Int) (c : Int) := by
+    unfold offsetOf
+    have h : ((c : Int) + 1 - 1) = c := by omega
+    rw [h, Int.sub_mul]
+    omega
+  unfold Mat.fget
+  rw [this]
 
 /-! ## `solve` -/
 
